@@ -6,10 +6,11 @@
   the theorems below are stated over that generated function, for ALL use
   trees (`RotoV.Use.UseTree` mirrors `syn::UseTree`).  Specification and its
   relational reading: `RotoV/Model/UseTree.lean`; lemmas about the
-  specification: `RotoV/Lemmas/UseTree.lean`.  The registration model is
-  imported for the two closing witnesses only.
+  specification: `RotoV/Lemmas/UseTree.lean`.  The registration model and the
+  lemma about its import pass (`RotoV/Lemmas/RegistrationUse.lean`) are
+  imported for `macro_use_names_bound` and the closing witnesses.
 -/
-import RotoV.Model.Registration
+import RotoV.Lemmas.RegistrationUse
 import RotoV.Lemmas.UseTree
 import RotoV.Generated.FlattenUse
 
@@ -85,6 +86,28 @@ theorem flatten_use_tree_rejects_iff (t : RotoV.Use.UseTree) :
     RotoV.Gen.FlattenUse.flattenUseTree t = none ↔ RotoV.Use.supported t = false := by
   rw [flatten_use_tree_paths, RotoV.Use.flattenSpec]
   cases RotoV.Use.supported t <;> simp
+
+/-- **T5 + T3, end to end.** For ALL use trees and ALL libraries: if `library!`
+    accepts the declaration, the `Use` item it builds is part of a library
+    (anywhere a `use` may stand) and the registration succeeds, then every
+    path the declaration names (`Leaf`) is bound — its last segment is an
+    import at the root whose target is that name in the scope that the path's
+    own segments lead to, whatever its siblings in the tree are. -/
+theorem macro_use_names_bound (lex : Name → Lex) (st st' : St) (items : Items)
+    (t : RotoV.Use.UseTree) (ps : List RotoV.Use.Path)
+    (hf : RotoV.Gen.FlattenUse.flattenUseTree t = some ps) (hu : UseIn items ps)
+    (h : register Cfg.fixed lex st items = .ok st') :
+    ∀ p, RotoV.Use.Leaf t p →
+      ∃ last s, p.getLast? = some last ∧ scopeAt st' [] p.dropLast = some s ∧
+        st'.imports [] last = some ⟨s, last⟩ := by
+  intro p hl
+  have hp : p ∈ ps := ((flatten_use_tree_leaves t ps hf).1 p).mpr hl
+  have hadd : add Cfg.fixed lex st items = .ok st' := by
+    unfold register at h
+    split at h
+    · exact h
+    · cases h
+  exact add_uses_bound lex st st' items hadd ps hu p hp
 
 /-- every variant of `syn::UseTree` has its own arm (no catch-all that could
     swallow a new shape) -/
